@@ -44,6 +44,9 @@ type interpreter struct {
 	id                 int
 	funcNames          map[*value]string // runtime.Func stand-ins
 	trace              bool
+	scratch            map[int]uint64
+	models             []map[string]uint64 // recent solver models (feasibility cache)
+	modelNext          int
 }
 
 type deferred struct {
@@ -383,7 +386,7 @@ func visitInstr(fr *frame, instr ssa.Instruction) continuation {
 func (i *interpreter) indexIn(idx value, n int) int {
 	if t, ok := idx.(*Term); ok {
 		// bounds check first (unsigned compare covers negatives)
-		if !i.decide(i.tb.Bin(opUlt, t, i.tb.BV(t.w, uint64(n)))) {
+		if !i.inRange(t, n) {
 			panic(targetPanic{fmt.Sprintf("runtime error: index out of range [symbolic] with length %d", n)})
 		}
 		return int(i.concretize(t))
@@ -395,6 +398,14 @@ func (i *interpreter) indexIn(idx value, n int) int {
 	return int(k)
 }
 
+// inRange decides 0 <= t < n for an index term.
+func (i *interpreter) inRange(t *Term, n int) bool {
+	if t.w < 64 && uint64(n) > mask(t.w) {
+		return true
+	}
+	return i.decide(i.tb.Bin(opUlt, t, i.tb.BV(t.w, uint64(n))))
+}
+
 // symTableLoad reads a[t] for a symbolic index into an array of concrete
 // scalars as an if-then-else chain over the distinct values.
 func (i *interpreter) symTableLoad(a array, t *Term, elemT types.Type) value {
@@ -402,34 +413,25 @@ func (i *interpreter) symTableLoad(a array, t *Term, elemT types.Type) value {
 	if w < 0 || len(a) > 256 {
 		return a[i.indexIn(t, len(a))]
 	}
-	if !i.decide(i.tb.Bin(opUlt, t, i.tb.BV(t.w, uint64(len(a))))) {
+	if !i.inRange(t, len(a)) {
 		panic(targetPanic{fmt.Sprintf("runtime error: index out of range [symbolic] with length %d", len(a))})
 	}
-	// group indices by value
-	type grp struct {
-		v   uint64
-		idx []int
+	// runs of equal consecutive values -> chain of threshold tests
+	type run struct {
+		v  uint64
+		hi int
 	}
-	var groups []grp
-	pos := map[uint64]int{}
+	var runs []run
 	for k, e := range a {
 		v, ok := concBits(e)
 		if !ok {
 			return a[int(i.concretize(t))]
 		}
 		v &= maskB(w)
-		if p, ok := pos[v]; ok {
-			groups[p].idx = append(groups[p].idx, k)
+		if len(runs) > 0 && runs[len(runs)-1].v == v {
+			runs[len(runs)-1].hi = k
 		} else {
-			pos[v] = len(groups)
-			groups = append(groups, grp{v, []int{k}})
-		}
-	}
-	// the biggest group becomes the default
-	big := 0
-	for p := range groups {
-		if len(groups[p].idx) > len(groups[big].idx) {
-			big = p
+			runs = append(runs, run{v, k})
 		}
 	}
 	mk := func(v uint64) *Term {
@@ -438,16 +440,9 @@ func (i *interpreter) symTableLoad(a array, t *Term, elemT types.Type) value {
 		}
 		return i.tb.BV(w, v)
 	}
-	res := mk(groups[big].v)
-	for p, g := range groups {
-		if p == big {
-			continue
-		}
-		cond := i.tb.ff
-		for _, k := range g.idx {
-			cond = i.tb.Or(cond, i.tb.Eq(t, i.tb.BV(t.w, uint64(k))))
-		}
-		res = i.tb.Ite(cond, mk(g.v), res)
+	res := mk(runs[len(runs)-1].v)
+	for p := len(runs) - 2; p >= 0; p-- {
+		res = i.tb.Ite(i.tb.Bin(opUle, t, i.tb.BV(t.w, uint64(runs[p].hi))), mk(runs[p].v), res)
 	}
 	return norm(elemT, res)
 }
